@@ -700,3 +700,14 @@ func vBreakLineOrphansWidows() (int, []string) {
 //@   assert after top#1: top == baselineY - pr.VV(box.Box().Baseline)
 //@   assert after bottom#1: bottom == top + box.Box().MarginHeight()
 //@   shows[covers-the-strut] result1 <= top && result0 >= bottom
+
+// "text-indent shifts the first line only" (C11): a line iterator that resumes after an already laid-out line
+// (any non-nil resume stack) carries no indent; one that starts the block carries the resolved text-indent.
+//@ func iterLineBoxes
+//@   props C11
+//@   requires box != nil && containingBlock != nil && containingBlock.Box() != nil && containingBlock.Box().Width != nil && containingBlock.Box().Height != nil
+//@   unclaimed call-resolveOnePercentage@*-pre1 "computed lengths are px, percentages or auto: a data invariant of computed styles, not tracked through the style accessors"
+//@   modifies anything
+//@   assert after box.TextIndent#1: skipStack == nil
+//@   assert after box.TextIndent#2: skipStack != nil && box.TextIndent == pr.Float(0)
+//@   shows[indent-resolved-for-the-first-line-only] calls(resolveOnePercentage) == ite(skipStack == nil, 1, 0)
